@@ -7,5 +7,10 @@ class C08(FloorProp):
     design_ref = 'DESIGN.md section 4 / C08'
     budgets = {'quick': 8000, 'thorough': 300000}
 
+    def gen(self, rng, index, tier):
+        from .. import floorsim
+        # every third run: parallel single-slot stations behind one holder (clause f, idle-longest choice)
+        return floorsim.gen_case(rng, 'c08f' if index % 3 == 2 else 'c08')
+
 
 PROP = C08()
